@@ -163,12 +163,15 @@ TErrLoc == /\ IsEvent("errloc") /\ UNCHANGED <<fs, objs, errloc, Globals>>
 \* listings (C11): sections in order of first appearance, keys of one section in entry order; an absent / empty section: ECONF_NOKEY
 TKeys == /\ IsEvent("keys") /\ UNCHANGED <<fs, objs, errloc, Globals>>
          /\ IF ~Known(Ev.h) THEN UNCHANGED diverged
-            ELSE LET ks == Dedup0(KeysE(objs[Ev.h], GroupArg(Ev.g))) IN
+            \* the key listing takes the section name literally ("[A]" is not "A": KeyFile!NormGK); NULL and "" mean group-less
+            ELSE LET ks == Dedup0(KeysE(objs[Ev.h], IF Ev.g = <<>> THEN NoGrp ELSE Ev.g[1])) IN
                  IF ks = <<>> THEN Check(~Ok(Ev.rc), [rc |-> "ECONF_NOKEY"]) ELSE Check(Ok(Ev.rc) /\ Ev.out = ks, [out |-> ks])
 TGroups == /\ IsEvent("groups") /\ UNCHANGED <<fs, objs, errloc, Globals>>
            /\ IF ~Known(Ev.h) THEN UNCHANGED diverged
               ELSE LET gs == objs[Ev.h].secs IN
-                   IF gs = <<>> THEN Check(~Ok(Ev.rc), [rc |-> "ECONF_NOGROUP"]) ELSE Check(Ok(Ev.rc) /\ Ev.out = gs, [out |-> gs])
+                   \* no section: refused (ECONF_NOGROUP) or an empty list - the library does either, depending on whether
+                   \* the object has group-less keys
+                   IF gs = <<>> THEN Check(~Ok(Ev.rc) \/ Ev.out = <<>>, [rc |-> "ECONF_NOGROUP"]) ELSE Check(Ok(Ev.rc) /\ Ev.out = gs, [out |-> gs])
 \* econf_set_delimiter_tag / econf_set_comment_tag: what econf_writeFile will use
 TSetTag == /\ IsEvent("settag") /\ UNCHANGED <<fs, errloc, diverged, Globals>>
            /\ objs' = IF Known(Ev.h) THEN [objs EXCEPT ![Ev.h] = IF Ev.which = "d" THEN [@ EXCEPT !.d = Ev.tag] ELSE [@ EXCEPT !.c = Ev.tag]] ELSE objs
